@@ -171,7 +171,7 @@ func UnifyGenericType$1 [C15]
 // equivalent to the requested ones is returned (equal arguments => one and the same type object) ...
 func GetInstantiatedStructType [C15]
   requires s != nil
-  ensures (exists k int :: 0 <= k && k < old(len(s.Instantiations)) && result == old(s.Instantiations[k])) ==>
+  ensures result != nil && (exists k int :: 0 <= k && k < old(len(s.Instantiations)) && result == old(s.Instantiations[k])) ==>
             slices.eqAllBy(result.instantiatedWith, genericTypes, Equal)
   // ... and none is returned whose arguments differ
   ensures forall k int :: 0 <= k && k < old(len(s.Instantiations)) && slices.eqAllBy(old(s.Instantiations[k]).instantiatedWith, genericTypes, Equal) ==>
